@@ -525,6 +525,29 @@ func buildCorpus(run *report.Run, rng *rand.Rand, root, in *pki.CA) (*corpus, []
 			}
 		}
 	}
+	// ---- byte sweep: every byte of a small valid CRL replaced by length-like / extreme values
+	{
+		vals := []byte{0x84, 0x88, 0xff}
+		if thorough {
+			vals = []byte{0x00, 0x01, 0x7f, 0x80, 0x81, 0x82, 0x83, 0x84, 0x85, 0x87, 0x88, 0x89, 0x8f, 0xa0, 0x30, 0xff}
+		}
+		for _, vi := range []int{0, 5} {
+			doc := validDER[vi]
+			for pos := 0; pos < len(doc); pos++ {
+				for _, v := range vals {
+					if doc[pos] == v {
+						continue
+					}
+					m := append([]byte(nil), doc...)
+					m[pos] = v
+					// a byte that becomes a long-form length octet makes the following bytes a length:
+					// such inputs contain an unbacked length
+					cls := "byte-sweep.plus"
+					c.add(cls, fmt.Sprintf("valid#%d byte %d := %#x", vi, pos, v), m, false)
+				}
+			}
+		}
+	}
 	// ---- PEM armour
 	d0 := validDER[0]
 	pemLF := string(crlgen.PEM(d0, "\n", true))
